@@ -42,14 +42,31 @@ def eoi_fact(x, inp_terms=None):
             return "first() is None"
         if c[0] == "true" and c[2] is True and c[1][0] == "bin" and c[1][1] == "Lt" and c[1][2][0] == "call" and c[1][2][1].endswith("::len"):
             return "len() < needed"
-        if c[0] == "true" and c[2] is True and c[1][0] == "call" and c[1][1].endswith("::is_empty"):
+        if c[0] == "true" and c[2] is True and c[1][0] == "call" and c[1][1].endswith("::is_empty") and looks_like_remainder(c[1][2][0]):
             return "is_empty()"
+        if c[0] == "true" and c[2] is True and c[1][0] == "call" and c[1][1].endswith("::is_empty") and c[1][2][0][0] == "tproj" and c[1][2][0][2] == 1:
+            empt.setdefault(c[1][2][0][1], set()).add(1)
+        if c[0] == "true" and c[2] is True and c[1][0] == "call" and c[1][1].endswith("::is_empty") and c[1][2][0][0] == "tproj" and c[1][2][0][2] == 0:
+            empt.setdefault(c[1][2][0][1], set()).add(0)
         if c[0] == "empty" and c[2] is True and c[1][0] == "tproj":
             empt.setdefault(c[1][1], set()).add(c[1][2])
     for k, v in empt.items():
         if v >= {0, 1}:
             return "both the taken part and the remainder of a take_while are empty"
     return None
+
+
+def looks_like_remainder(t):
+    """A slice that is the input itself or what is left of it (not a taken/consumed part)."""
+    if t[0] in ("param", "loopvar", "local"):
+        return True
+    if t[0] == "tproj" and t[2] == 0 and t[1][0] == "payload":
+        return True
+    if t[0] == "tproj" and t[2] == 1 and t[1][0] == "call" and t[1][1].endswith("::split_at"):
+        return True
+    if t[0] == "index" and t[2][0] == "struct" and t[2][1].endswith("RangeFrom"):
+        return True
+    return False
 
 
 def rule_I(ck, lib, sk):
